@@ -1,16 +1,22 @@
 #!/usr/bin/env python3
 """False-alarm test: every change in /verif/benign/<name>/patch.diff preserves all twenty properties; every check must
-exit 0 on a scratch clone of /repo with the change applied (the repository's suite is run too, informational)."""
+exit 0 on a scratch clone of /repo with the change applied (the repository's suite is run too, informational).
+usage: tools/benign.py [--shard=k/n] [--merge] [name ...]"""
 import json, os, subprocess, sys, shutil
 HERE = os.path.dirname(os.path.dirname(os.path.abspath(__file__)))
 SCR = f"/root/scratch/bn{os.getpid()}"
 def sh(cmd, cwd=None):
     return subprocess.run(cmd, shell=True, cwd=cwd, capture_output=True, text=True)
-rp = os.path.join(HERE, "benign", "RESULTS.json")
+SHARD = next((a.split("=")[1] for a in sys.argv[1:] if a.startswith("--shard=")), None)  # k/n -> RESULTS.k.json
+ARGS = [a for a in sys.argv[1:] if not a.startswith("--")]
+rp = os.path.join(HERE, "benign", "RESULTS.json" if not SHARD else f"RESULTS.{SHARD.split('/')[0]}.json")
 res = json.load(open(rp)) if os.path.exists(rp) else {}
 names = [n for n in sorted(os.listdir(os.path.join(HERE, "benign"))) if os.path.isdir(os.path.join(HERE, "benign", n))]
+if SHARD:
+    k_, n_ = map(int, SHARD.split("/"))
+    names = names[k_::n_]
 for name in names:
-    if len(sys.argv) > 1 and name not in sys.argv[1:]:
+    if ARGS and name not in ARGS:
         continue
     shutil.rmtree(SCR, ignore_errors=True)
     sh(f"git clone -q /repo {SCR}")
@@ -26,5 +32,13 @@ for name in names:
             alarms[pid] = [l.strip()[:200] for l in c.stdout.splitlines() if "clause=" in l or "HARNESS" in l][:3]
     res[name] = {"suite": suite, "alarms": alarms}
     print(f"{name:32s} suite={suite[:30]!r} alarms={alarms}")
+    json.dump(res, open(rp, "w"), indent=1)
 shutil.rmtree(SCR, ignore_errors=True)
-json.dump(res, open(os.path.join(HERE, "benign", "RESULTS.json"), "w"), indent=1)
+json.dump(res, open(rp, "w"), indent=1)
+if "--merge" in sys.argv:
+    import glob
+    full = os.path.join(HERE, "benign", "RESULTS.json")
+    allr = json.load(open(full)) if os.path.exists(full) else {}
+    for f in sorted(glob.glob(os.path.join(HERE, "benign", "RESULTS.*.json"))):
+        allr.update(json.load(open(f))); os.remove(f)
+    json.dump(allr, open(full, "w"), indent=1)
